@@ -27,17 +27,36 @@ def parseItem (tok : String) : Option Item :=
   | _ :: rest => (unhex (String.ofList rest)).map .text
   | [] => none
 
+/-- The items of one statement.  An item of kind `x` is a value whose inserter puts the statement's
+string stream into the failed state and writes nothing (`os.setstate(std::ios_base::failbit)`):
+as with every `std::ostream`, what is inserted afterwards is not appended any more, while the
+operands — in particular callables streamed for lazy evaluation — are still evaluated.  That
+iostream behaviour is modelled here, in the driver: the items behind the first `x` carry no text. -/
+def parseItemsGo : Bool → List String → Option (List Item)
+  | _, [] => some []
+  | failed, tok :: rest =>
+    match tok.toList with
+    | 'x' :: _ => (parseItemsGo true rest).map (Item.text [] :: ·)
+    | _ =>
+      match parseItem tok with
+      | some (.text t) => (parseItemsGo failed rest).map (Item.text (if failed then [] else t) :: ·)
+      | some (.lazy id t) => (parseItemsGo failed rest).map (Item.lazy id (if failed then [] else t) :: ·)
+      | none => none
+
+def parseItems (items : String) : Option (List Item) :=
+  if items = "_" then some [] else parseItemsGo false (items.splitOn ",")
+
 def parseOp (tok : String) : Option Op :=
   match tok.splitOn ":" with
   | ["thr", n, s] => do pure (.setThr (← n.toNat?) (← s.toNat?))
   | ["st", sev, tag, named, items] => do
     let tg ← if tag = "~" then some none else (unhex tag).map some
     let nm ← if named = "e" then some none else ((named.drop 1).toString.toNat?).map some
-    let its ← if items = "_" then some [] else (items.splitOn ",").mapM parseItem
+    let its ← parseItems items
     pure (.stmt (← sev.toNat?) tg its nm)
   | ["ov", sa, ta, ia, sb, tb, ib] => do
     let tg := fun (t : String) => if t = "~" then some none else (unhex t).map some
-    let its := fun (i : String) => if i = "_" then some [] else (i.splitOn ",").mapM parseItem
+    let its := fun (i : String) => parseItems i
     pure (.overlap (← sa.toNat?) (← tg ta) (← its ia) (← sb.toNat?) (← tg tb) (← its ib))
   | _ => none
 
